@@ -1930,7 +1930,7 @@ class scope(slots_getstate_setstate):
                     (False, matching_sources),
                 ]:
                     for matching_source in matching.active_objects():
-                        if matching_source is master_object:
+                        if from_master and matching_source is master_object:
                             continue
                         candidate = master_object.fetch(
                             source=matching_source,
